@@ -37,6 +37,14 @@ class FpExec:
         s.side = []        # constraints defining nondeterministic library results (libm pow)
 
     def run(s, fn, env=None):
+        # an exception of the ANALYSIS while it executes the code under check (a construct the executor does not model, met in a form it did not expect) is
+        # `outside the verified subset` (undecided, with the native fallback), not a fault of the checker
+        try:
+            return s._run_impl(fn, env)
+        except (AttributeError, TypeError, KeyError, IndexError, ValueError, AssertionError, z3.Z3Exception) as ex_:
+            raise Unsupported(f"analysis error {type(ex_).__name__}: {str(ex_)[:200]}")
+
+    def _run_impl(s, fn, env=None):
         s.env = dict(env) if env is not None else {"x": s.x}
         for st in fn.body:
             if isinstance(st, ast.Expr) and isinstance(st.value, ast.Constant):
